@@ -527,14 +527,6 @@ fn exec(ctx: &mut Ctx, part: &str, c: &Case, guard_steps: &[vtrace::Step]) {
             ctx.class("hang_not_reproduced", 1);
             obs = obs2;
             r = r2;
-        } else if let (Err(f1), Err(f2)) = (&r, &r2) {
-            // both attempts ran out of time. While the case process merely waits for its traced
-            // child (wchan=do_wait) the machine is just slow (a ptrace stop costs two context
-            // switches on a contended CPU): inconclusive, not a violation. A survivor call that
-            // does not return shows the case process itself sleeping or running.
-            if f1.message.contains("wchan=do_wait") || f2.message.contains("wchan=do_wait") {
-                r = Err(Failure::new("harness.slow", format!("case exceeded its time limit twice while waiting for the traced child: {}", f2.message)));
-            }
         }
     }
     ctx.record(part, vcore::rng::hash_str(&format!("{part}{c:?}")), &obs, || serde_json::to_value(c).unwrap());
